@@ -81,7 +81,7 @@ def gen_fields(rng, vendor=None, ptype=None, namelen=None):
             "status": rng.choice([0, 0x3060, 0x3170, 0xFFFF, rng.randrange(65536)]),
             "serial": rng.choice([0, 1, 0xFFFFFFFF, 0x00C0FFEE, 0xA, rng.getrandbits(32)]),
             "name": bytes(rng.choice([rng.randrange(32, 127), rng.randrange(256)]) for _ in range(n)),
-            "state": rng.randrange(256), "ip": rng.getrandbits(32)}
+            "state": rng.randrange(256), "ip": rng.choice([0, 1, 0xFFFFFFFF, 0x0A000001, rng.getrandbits(32), rng.getrandbits(32)])}
 
 
 def run(ctx, model):
